@@ -2,6 +2,7 @@ package protocol
 
 import (
 	"errors"
+	"math"
 )
 
 var errBase10 = errors.New("failed to convert to Base10")
@@ -20,6 +21,11 @@ func ByteToBase10(b []byte) (n uint64, err error) {
 			n = 0
 			err = errBase10
 			return
+		}
+		if n > (math.MaxUint64-uint64(v))/base {
+			// does not fit in 64 bits: saturate, callers range-check the value
+			n = math.MaxUint64
+			continue
 		}
 		n *= base
 		n += uint64(v)
